@@ -160,6 +160,29 @@ class C14(Check):
                 elif a.strand != -b.strand:
                     ctx.violation("reverse-strand", case, f"{a!r} vs {b!r}")
         ctx.outcome(tuple(fm.rows_of(r1)))
+        # histories: a reversed scaffold is edited (rows appended with and without a gap, a row added), then reversed again;
+        # the result must be the reversal of what the scaffold holds now
+        other = fm.build_scaffold("o", [("F", "z", 3, 9, -1, ("Cut",)), ("G", 5, "contig"), ("F", "z", 10, 12, 1)])
+        for step in ("append", "append-gap", "add_row", "pop"):
+            r = s.reverse()
+            try:
+                if step == "append":
+                    r.append_scaffold(other)
+                elif step == "append-gap":
+                    r.append_scaffold(other, Gap(200, "scaffold"))
+                elif step == "add_row":
+                    r.add_row(Fragment("y", 1, 4, 1))
+                elif r.rows:
+                    r.rows.pop(0)
+                now = list(r.rows)
+                rr = r.reverse()
+            except Exception as e:  # noqa: BLE001
+                ctx.violation(f"reverse-after-edit-raises:{type(e).__name__}", case + [step], repr(e))
+                continue
+            want = [(x if isinstance(x, Gap) else (x.name, x.start, x.end, -x.strand, x.tags)) for x in reversed(now)]
+            got = [(x if isinstance(x, Gap) else (x.name, x.start, x.end, x.strand, x.tags)) for x in rr.rows]
+            if got != want:
+                ctx.violation("reverse-after-edit", case + [step], f"got {rr.rows!r} expected reversal of {now!r}")
 
     @staticmethod
     def same(a, b):
@@ -261,7 +284,7 @@ class C14(Check):
             n = case[1]
             self.check_string((unit * (n // len(unit) + 1))[:n], ctx, label=f"len{n}")
         elif kind == "scaffold":
-            self.check_scaffold([tuple(tuple(x) if isinstance(x, list) else x for x in r) for r in case[1]], ctx)
+            self.check_scaffold([tuple(tuple(x) if isinstance(x, list) else x for x in r) for r in case[1][: len(case[1])]], ctx)
         elif kind == "stream":
             _, w, eol, buf, ll, rows = case
             fi = c03.CHECK.make_index(w, eol, buf)
